@@ -154,6 +154,8 @@ impl Ctx {
     pub fn violation(&mut self, key: String, what: String, replay: Value) {
         self.nviol += 1;
         if self.violations.len() < MAX_VIOLATIONS_KEPT && !self.violations.iter().any(|v| v.key == key) {
+            // explanations can quote whole formulas or list families: keep them readable
+            let what = if what.chars().count() > 6000 { format!("{} ... [{} more characters]", what.chars().take(6000).collect::<String>(), what.chars().count() - 6000) } else { what };
             self.violations.push(Violation { key, what, replay });
         }
     }
